@@ -86,7 +86,8 @@ static void work_rt(long lo, long hi, struct res *r, void *arg) {
         /* the library's own serialisation of the same seed made through create */
         polyseed_enable_features(7);
         extern uint64_t E_create_clock_shift; E_create_clock_shift = (x & 3) == 3 ? (uint64_t)(1 + (x >> 2) % 5) * 1024 * R_STEP : 0;   /* a clock one or more 1024-month ranges later gives the same month index */
-        polyseed_data *d = seed_via_create(&s); r->calls++; r->cases++; E_create_clock_shift = 0;
+        { static const unsigned HB[6] = { 0, 0x8, 0x10, 0x40, 0xFFFFFFF8u, 0x80000020u }; E_create_high_bits = HB[(x >> 1) % 6]; }
+        polyseed_data *d = seed_via_create(&s); r->calls++; r->cases++; E_create_clock_shift = 0; E_create_high_bits = 0;
         if (!d) { res_viol(r, "c06:rt-create", "", "cannot create seed"); continue; }
         uint8_t st[32]; polyseed_store(d, st); polyseed_free(d); r->calls += 2;
         r->digest ^= mix64(x, st[30] | st[31] << 8);
